@@ -342,7 +342,7 @@ CHAR_STUBS = [("crate::chars::to_lower_case", "crate::chars::verif_charmodel::mo
               ("crate::chars::char_class_non_ascii", "crate::chars::verif_charmodel::model_class_non_ascii")]
 CM_PROPS = {"C01": "quick", "C02": "quick", "C03": "quick", "C05": "quick"}
 U("c01-charmodel-valid-non-ascii", "charmodel", "c01_charmodel_valid_non_ascii", CM_PROPS, "complete", ["chars::to_lower_case", "chars::is_upper_case", "chars::normalize::normalize", "chars::char_class_non_ascii"],
-  "for each of the 16 non-ASCII characters of the model domain: the real to_lower_case / is_upper_case / normalize / char_class_non_ascii / is_whitespace return what the model table says", cost=6)
+  "for each of the 16 non-ASCII characters of the model domain: the real to_lower_case / is_upper_case / normalize / char_class_non_ascii / is_whitespace return what the model table says", cost=6, core=True)
 U("c01-charmodel-valid-ascii", "charmodel", "c01_charmodel_valid_ascii", CM_PROPS, "complete", ["chars::to_lower_case", "chars::is_upper_case", "chars::normalize::normalize"],
   "for all 128 ASCII characters: the real to_lower_case / is_upper_case / normalize return what the model table says")
 REPNAME = {1: "Unicode x Ascii", 2: "Unicode x Unicode", 3: "Ascii x Unicode(ASCII-only needle)", 4: "Unicode(ASCII-only haystack) x Ascii"}
@@ -388,7 +388,7 @@ for rep in (1, 2):
         tier = "quick" if h == 4 else "thorough"
         UC("c01-uni-fallback-dec-r%d-h%d-n%d" % (rep, h, n), "uni", "uni_decision::<%d,0,%d,%d,0>()" % (rep, h, n), {"C01": tier, "C10": tier}, "bounded", UNI_FNS[0] + ["Matcher::fuzzy_match_greedy_::<char,_>"],
            "fuzzy_match (%s) with the slab refusing (greedy fallback forced): still decides the normalised-subsequence relation" % REPNAME[rep], unwind=max(h + 3, 7),
-           bound="%s, haystack %d, needle %d, model-domain chars, MatrixSlab::alloc stubbed to return None" % (REPNAME[rep], h, n), cost=5, stubs=CHAR_STUBS + REFUSE)
+           bound="%s, haystack %d, needle %d, model-domain chars, MatrixSlab::alloc stubbed to return None" % (REPNAME[rep], h, n), cost=5, stubs=CHAR_STUBS + REFUSE, core=(rep == 1 and h == 4))
         UC("c02-uni-fallback-wit-r%d-h%d-n%d" % (rep, h, n), "uni", "uni_witness::<%d,0,%d,%d,0>()" % (rep, h, n), {"C02": tier, "C01": tier, "C03": tier}, "bounded", UNI_FNS[0] + ["Matcher::fuzzy_match_greedy_::<char,_>"],
            "fuzzy_indices (%s) with the slab refusing: same decision, W, score == scheme" % REPNAME[rep], unwind=max(h + 3, 7),
            bound="%s, haystack %d, needle %d, MatrixSlab::alloc stubbed to return None" % (REPNAME[rep], h, n), cost=6, stubs=CHAR_STUBS + REFUSE)
